@@ -3,6 +3,9 @@ From Coq Require Import ZArith List Bool Arith Lia.
 From SP Require Import Model.Num Model.Arrow Model.Bounds Spec.BoundsSpec
                        Proofs.BoundsProofs.
 Import ListNotations.
+Local Open Scope nat_scope.
+
+(* ---- the kernels ---- *)
 
 Theorem C13_kernel : forall vs, tight_box vs (total_bounds_interleaved vs).
 Proof. exact kernel_tight. Qed.
@@ -15,14 +18,179 @@ Theorem C13_kernel_1d : forall vs,
 Proof. exact kernel_1d. Qed.
 Print Assumptions C13_kernel_1d.
 
+(* ---- list arrays: per-row bounds ---- *)
+
+Theorem C13_bounds_rows : forall a, wf_listarr a = true ->
+  la_bounds a =
+  map (fun i => total_bounds_interleaved (elem_flat a i)) (seq 0 (la_len a)).
+Proof. exact la_bounds_rows. Qed.
+Print Assumptions C13_bounds_rows.
+
+Theorem C13_bounds_length : forall a, wf_listarr a = true ->
+  length (la_bounds a) = la_len a.
+Proof. exact la_bounds_length. Qed.
+Print Assumptions C13_bounds_length.
+
+Theorem C13_bounds_row_tight : forall a i,
+  wf_listarr a = true -> (i < la_len a)%nat ->
+  tight_box (elem_flat a i) (nth i (la_bounds a) nanbox).
+Proof. exact la_bounds_row_tight. Qed.
+Print Assumptions C13_bounds_row_tight.
+
+Theorem C13_missing_row_nan : forall a i,
+  wf_listarr a = true -> nulls_empty a = true -> (i < la_len a)%nat ->
+  isna_at (la_valid a) (la_off a) i = true ->
+  nth i (la_bounds a) nanbox = nanbox.
+Proof. exact la_missing_row_nan. Qed.
+Print Assumptions C13_missing_row_nan.
+
+(* ---- list arrays: total bounds ---- *)
+
+(* what flat_values reads is exactly the coordinates of the non-missing
+   elements, in order *)
+Theorem C13_flat_values : forall a,
+  wf_listarr a = true -> nulls_empty a = true ->
+  flat_values a = la_valid_coords a.
+Proof. exact flat_values_valid_coords. Qed.
+Print Assumptions C13_flat_values.
+
+(* full strength: holds without [even_outer] *)
+Theorem C13_total_noeven : forall a,
+  wf_listarr a = true -> nulls_empty a = true ->
+  tight_box (la_valid_coords a) (la_total_bounds a).
+Proof. exact la_total_tight. Qed.
+Print Assumptions C13_total_noeven.
+
+Theorem C13_total : forall a,
+  wf_listarr a = true -> nulls_empty a = true -> even_outer a = true ->
+  tight_box (la_valid_coords a) (la_total_bounds a).
+Proof. exact la_total_tight_even. Qed.
+Print Assumptions C13_total.
+
 Theorem C13_total_proj : forall a,
   let '(x0, y0, x1, y1) := la_total_bounds a in
   la_total_bounds_x a = (x0, x1) /\ la_total_bounds_y a = (y0, y1).
 Proof. exact la_total_proj. Qed.
 Print Assumptions C13_total_proj.
 
+(* ---- list arrays: every row lies inside the total ---- *)
+
+Theorem C13_rows_in_total : forall a i x0 y0 x1 y1,
+  wf_listarr a = true -> nulls_empty a = true -> even_outer a = true ->
+  (i < la_len a)%nat -> isna_at (la_valid a) (la_off a) i = false ->
+  nth i (la_bounds a) nanbox = (x0, y0, x1, y1) ->
+  let '(X0, Y0, X1, Y1) := la_total_bounds a in
+  (forall v, x0 = Some v -> exists t, X0 = Some t /\ (t <= v)%Z) /\
+  (forall v, x1 = Some v -> exists t, X1 = Some t /\ (v <= t)%Z) /\
+  (forall v, y0 = Some v -> exists t, Y0 = Some t /\ (t <= v)%Z) /\
+  (forall v, y1 = Some v -> exists t, Y1 = Some t /\ (v <= t)%Z).
+Proof. exact la_rows_in_total. Qed.
+Print Assumptions C13_rows_in_total.
+
+(* [even_outer] cannot be dropped from C13_rows_in_total: a well-formed array
+   without missing elements whose row 1 has xmax 100 while the total xmax is 5
+   (offsets [0;1;3]: the row is read from an odd position of the buffer). *)
+Theorem C13_rows_in_total_needs_even :
+  exists a i v t,
+    wf_listarr a = true /\ nulls_empty a = true /\ even_outer a = false /\
+    (i < la_len a)%nat /\ isna_at (la_valid a) (la_off a) i = false /\
+    snd (fst (nth i (la_bounds a) nanbox)) = Some v /\
+    snd (fst (la_total_bounds a)) = Some t /\ (t < v)%Z.
+Proof. exact la_rows_in_total_needs_even. Qed.
+Print Assumptions C13_rows_in_total_needs_even.
+
+(* ---- fixed (point) arrays ---- *)
+
+Theorem C13_point_rows : forall a, wf_fixarr a = true ->
+  fa_bounds a =
+  map (fun p => total_bounds_interleaved (point_coords p)) (fa_decode a).
+Proof. exact fa_bounds_rows. Qed.
+Print Assumptions C13_point_rows.
+
+Theorem C13_point_total : forall a, wf_fixarr a = true ->
+  tight_box (fa_valid_coords a) (fa_total_bounds a).
+Proof. exact fa_total_tight. Qed.
+Print Assumptions C13_point_total.
+
 Theorem C13_point_total_proj : forall a,
   let '(x0, y0, x1, y1) := fa_total_bounds a in
   fa_total_bounds_x a = (x0, x1) /\ fa_total_bounds_y a = (y0, y1).
 Proof. exact fa_total_proj. Qed.
 Print Assumptions C13_point_total_proj.
+
+(* ---- non-vacuity ---- *)
+
+(* two nesting levels, sliced at offset 1, slot 2 (absolute 3) missing, two NaN
+   coordinates; values 0..1 belong to the slot cut off by the slice *)
+Definition ex_la : listarr :=
+  {| la_off := 1; la_len := 3;
+     la_valid := Some [true; true; false; true];
+     la_offs := [[0; 1; 3; 3; 4]; [0; 2; 6; 8; 12]];
+     la_vals := [Some 100%Z; Some 100%Z;
+                 Some 1%Z; Some 5%Z; None; Some (-3)%Z; Some 4%Z; Some 2%Z;
+                 Some 7%Z; None; Some (-2)%Z; Some 9%Z] |}.
+
+Example ex_la_guards :
+  (wf_listarr ex_la, nulls_empty ex_la, even_outer ex_la) = (true, true, true).
+Proof. vm_compute; reflexivity. Qed.
+
+Example ex_la_isna : la_isna ex_la = [false; true; false].
+Proof. vm_compute; reflexivity. Qed.
+
+Example ex_la_outer : buffer_outer_offsets ex_la = [2; 8; 8; 12].
+Proof. vm_compute; reflexivity. Qed.
+
+Example ex_la_decode :
+  decode_flat ex_la =
+  [Some [Some 1%Z; Some 5%Z; None; Some (-3)%Z; Some 4%Z; Some 2%Z];
+   None;
+   Some [Some 7%Z; None; Some (-2)%Z; Some 9%Z]].
+Proof. vm_compute; reflexivity. Qed.
+
+Example ex_la_all :
+  la_all ex_la =
+  ([(Some 1%Z, Some (-3)%Z, Some 4%Z, Some 5%Z);
+    nanbox;
+    (Some (-2)%Z, Some 9%Z, Some 7%Z, Some 9%Z)],
+   (Some (-2)%Z, Some (-3)%Z, Some 7%Z, Some 9%Z),
+   (Some (-2)%Z, Some 7%Z),
+   (Some (-3)%Z, Some 9%Z)).
+Proof. vm_compute; reflexivity. Qed.
+
+(* point array sliced at offset 1, slot 1 (absolute 2) missing with placeholder
+   values 99, slot 0 has a NaN y *)
+Definition ex_fa : fixarr :=
+  {| fa_off := 1; fa_len := 3;
+     fa_valid := Some [true; true; false; true];
+     fa_vals := [Some 50%Z; Some 50%Z; Some 1%Z; None; Some 99%Z; Some 99%Z;
+                 Some (-4)%Z; Some 6%Z] |}.
+
+Example ex_fa_guard : wf_fixarr ex_fa = true.
+Proof. vm_compute; reflexivity. Qed.
+
+Example ex_fa_decode :
+  fa_decode ex_fa = [Some (Some 1%Z, None); None; Some (Some (-4)%Z, Some 6%Z)].
+Proof. vm_compute; reflexivity. Qed.
+
+Example ex_fa_all :
+  fa_all ex_fa =
+  ([(Some 1%Z, None, Some 1%Z, None);
+    nanbox;
+    (Some (-4)%Z, Some 6%Z, Some (-4)%Z, Some 6%Z)],
+   (Some (-4)%Z, Some 6%Z, Some 1%Z, Some 6%Z),
+   (Some (-4)%Z, Some 1%Z),
+   (Some 6%Z, Some 6%Z)).
+Proof. vm_compute; reflexivity. Qed.
+
+(* an extent that is a genuine min/max, and an empty one *)
+Example ex_extent : extent [3; -1; 2]%Z (Some (-1)%Z) (Some 3%Z).
+Proof.
+  cbn. exists (-1)%Z, 3%Z. repeat split; cbn; try tauto;
+    intros x [<-|[<-|[<-|[]]]]; lia.
+Qed.
+
+Example ex_extent_not_loose : ~ extent [3; -1; 2]%Z (Some (-2)%Z) (Some 3%Z).
+Proof.
+  cbn. intros (a & b & Ha & _ & [Hin _] & _). injection Ha as <-.
+  cbn in Hin. lia.
+Qed.
